@@ -121,6 +121,18 @@ class TEmpty(Ty):
         raise OutOfSubset("untyped empty container")
 
 
+class THelper(Ty):
+    """Type of Python-side helper values that are not containers (views, tuples under construction,
+    closures, string literals, iterables).  Never confused with an empty container."""
+
+    def __init__(self, kind):
+        self.kind = kind
+        self.name = f"helper-{kind}"
+
+    def sort(self):
+        raise OutOfSubset(f"helper value `{self.kind}` has no SMT sort")
+
+
 class _TSpace(Ty):
     name = "Space"
 
